@@ -53,7 +53,7 @@ def main():
                 open(os.path.join(dd, "go.mod"), "w").write(gm)
                 if os.path.exists(os.path.join(wt, "go.sum")):
                     shutil.copy(os.path.join(wt, "go.sum"), os.path.join(dd, "go.sum"))
-                rc, out = sh("go run .", cwd=dd, timeout=900)
+                rc, out = sh("go run . " + os.environ.get("SEED_DEMO_ARGS", "").replace("{wt}", wt), cwd=dd, timeout=900)
                 shutil.rmtree(dd, ignore_errors=True)
                 return rc, out
             shutil.copy(demo_src, demo_dst)
